@@ -358,3 +358,98 @@ def gen_csv(rng):
     den = {'signals': [norm_name(n.replace(' ', '_')) for n in names], 'scopes': [], 'ts': ts, 'values': cols,
            'widths': {norm_name(n.replace(' ', '_')): 1 for n in names}}
     return text, den
+
+
+# ------------------------------------------------------------------ trace-reading fragment
+class Frag:
+    """expression generator over the signals of loaded traces.
+    infos: {tid: info}; qualified names are used when more than one trace is loaded."""
+
+    def __init__(self, rng, infos, vsigs=(), funcs=(), allow_at=True):
+        self.rng = rng
+        self.infos = infos
+        self.multi = len(infos) > 1
+        self.vsigs = list(vsigs)        # names of virtual signals (single trace only)
+        self.funcs = list(funcs)        # (name, arity)
+        self.allow_at = allow_at
+        self.N = max(i['n'] for i in infos.values())
+
+    def sig(self):
+        tid = self.rng.choice(sorted(self.infos))
+        name = self.rng.choice(sorted(self.infos[tid]['signals']))
+        return (tid + '^' + name) if self.multi else name
+
+    def special(self):
+        s = self.rng.choice(['INDEX', 'TS', 'MAX-INDEX'])
+        if self.multi:
+            return self.rng.choice(sorted(self.infos)) + '^' + s
+        return s
+
+    def scoped(self):
+        """(in-scope S ~n) or (in-group G #n) denoting an existing signal"""
+        tid = self.rng.choice(sorted(self.infos))
+        name = self.rng.choice(sorted(self.infos[tid]['signals']))
+        pre = (tid + '^') if self.multi else ''
+        if '.' in name and self.rng.random() < 0.6:
+            sc, leaf = name.rsplit('.', 1)
+            return '(in-scope "%s%s" ~%s)' % (pre, sc, leaf)
+        cut = self.rng.randrange(1, len(name))
+        while name[cut - 1] == '<' or name[cut:][0] in '<>0123456789':
+            cut = self.rng.randrange(1, len(name))
+            if cut == 1:
+                break
+        g, leaf = name[:cut], name[cut:]
+        if not re.match(r'^[a-zA-Z_.][\w.<>]*$', leaf):
+            return pre + name
+        return '(in-group "%s%s" #%s)' % (pre, g, leaf)
+
+    def atom(self):
+        r = self.rng.random()
+        if r < 0.45:
+            return self.sig()
+        if r < 0.6:
+            return self.special()
+        if r < 0.7 and self.vsigs:
+            return self.rng.choice(self.vsigs)
+        if r < 0.8:
+            return self.scoped()
+        return str(self.rng.randrange(0, 4))
+
+    def expr(self, depth=3):
+        rng = self.rng
+        if depth <= 0 or rng.random() < 0.25:
+            return self.atom()
+        r = rng.random()
+        if r < 0.30:
+            op = rng.choice(['+', '-', '*', 'bor', 'band', 'bxor'])
+            return '(%s %s %s)' % (op, self.expr(depth - 1), self.expr(depth - 1))
+        if r < 0.45:
+            op = rng.choice(['=', '!=', '>', '<', '>=', '<='])
+            return '(%s %s %s)' % (op, self.expr(depth - 1), self.expr(depth - 1))
+        if r < 0.55:
+            op = rng.choice(['&&', '||'])
+            return '(%s %s %s)' % (op, self.expr(depth - 1), self.expr(depth - 1))
+        if r < 0.60:
+            return '(! (= %s %s))' % (self.expr(depth - 1), self.expr(depth - 1))
+        if r < 0.68:
+            return '(if %s %s %s)' % (self.expr(depth - 1), self.expr(depth - 1), self.expr(depth - 1))
+        if r < 0.85 and self.allow_at:
+            k = rng.choice([-2, -1, 1, 1, 2, 3])
+            inner = self.expr(depth - 1)
+            if rng.random() < 0.5 or not re.match(r'^[A-Za-z_][\w.<>^-]*$|^\(.*\)$', inner):
+                return '(reval %s %d)' % (inner, k)
+            return '%s@%d' % (inner, k)
+        if r < 0.95 and self.funcs:
+            name, ar = rng.choice(self.funcs)
+            return '(%s%s)' % (name, ''.join(' ' + self.expr(depth - 1) for _ in range(ar)))
+        return '(slice %s %d)' % (self.sig(), rng.randrange(0, 3))
+
+    def func_defs(self):
+        """definitions of user functions reading signals: returns list of texts and registers them"""
+        defs = []
+        s1, s2 = self.sig(), self.sig()
+        defs.append('(defun rd [] (+ %s %s))' % (s1, self.special()))
+        defs.append('(defun pick [x] (if (> x 0) %s (- 0 x)))' % s2)
+        defs.append('(define nxt (fn [] (reval %s 1)))' % s1)
+        self.funcs = [('rd', 0), ('pick', 1), ('nxt', 0)]
+        return defs
